@@ -7,6 +7,7 @@ import Aldrin.Model.Msg
 import Aldrin.Model.Packetizer
 import Driver.BrokerCmd
 import Driver.TypeIdCmd
+import Driver.DiscCmd
 
 namespace Aldrin.Driver
 open Aldrin
@@ -163,6 +164,7 @@ def ioCmd (cmd : String) (args : List String) : Option String :=
 
 structure DState where
   broker : BState := {}
+  disc : Option Aldrin.Disc.Disc := none
   deriving Inhabited
 
 def step (ds : DState) (line : String) : DState × String :=
@@ -177,6 +179,8 @@ def step (ds : DState) (line : String) : DState × String :=
         | some out => (ds, out)
         | none => match typeIdCmd cmd args with
           | some out => (ds, out)
+          | none => match discCmd ds.disc cmd args with
+          | some (d, out) => ({ ds with disc := d }, out)
           | none => match brokerCmd ds.broker cmd args with
             | some (b, out) => ({ ds with broker := b }, out)
             | none => (ds, "bad-op")
